@@ -11,7 +11,7 @@ RULE = ("random small programs (bounded/ref.py generator incl. lets, aliases, ma
         "alias bound, let value) that still parses and changes the reference meaning or declarations compares unequal, in both directions; "
         "non-trivial = at least one meaning-changing mutant was compared")
 BOUND = "n <= 4, depth <= 3, all single-token mutants of each program (numbers +1, names swapped, braces swapped)"
-BUDGET_S = {"quick": 45, "thorough": 900}
+BUDGET_S = {"quick": 45, "thorough": 400}
 
 
 def cases(tier, rng):
